@@ -761,6 +761,32 @@ func init() {
 				register(fmt.Sprintf("c:%d:%d", ti, g.x.tables[ti].NColumns()))
 				rows = append(rows, g.do("addrowitems "+t+" "+mk(10+r.n(4))))
 			}
+			if r.chance(1, 4) {
+				// a cell that already carries callbacks is added BY VALUE twice; each copy then gets one more
+				proto := g.do("newrow")
+				g.do("rowadd " + proto + " " + item)
+				for k := 0; k < 1+r.n(3); k++ {
+					register(fmt.Sprintf("x:%s:0", proto[1:]))
+				}
+				y := g.do("copycell " + proto + " 0")
+				dst := g.do("newrow")
+				// a copy carries the registrations its original had when it was copied
+				for _, rg := range append([]reg(nil), regs...) {
+					if rg.owner == fmt.Sprintf("x:%s:0", proto[1:]) {
+						for k := 0; k < 2; k++ {
+							cl := rg
+							cl.owner = fmt.Sprintf("x:%s:%d", dst[1:], k)
+							regs = append(regs, cl)
+						}
+					}
+				}
+				g.do("rowaddcopy " + dst + " " + y)
+				g.do("rowaddcopy " + dst + " " + y)
+				g.do("addrow " + t + " " + dst)
+				rows = append(rows, dst)
+				register(fmt.Sprintf("x:%s:0", dst[1:]))
+				register(fmt.Sprintf("x:%s:1", dst[1:]))
+			}
 			if r.chance(1, 3) {
 				late := g.do("addrowitems " + t + " " + mk(r.n(ncols+1)))
 				rows = append(rows, late)
@@ -1001,7 +1027,7 @@ func init() {
 
 // ---------- C18: length metrics ----------
 
-var alphaLen = []string{"\n", "\n", "\n\n", "a", "bc", " ", "世", "é", "é", "​", "👨‍👩‍👧", "\xff", "\xc3", "\xe4\xb8", "\xf0\x9f", "\xed\xa0\x80", "\xc0\x80", "ｗ", "\t", "\r", "🇯🇵"}
+var alphaLen = []string{"\x7f", "ab\x7f", "\x1b[0m", "\x01", "\n", "\n", "\n\n", "a", "bc", " ", "世", "é", "é", "​", "👨‍👩‍👧", "\xff", "\xc3", "\xe4\xb8", "\xf0\x9f", "\xed\xa0\x80", "\xc0\x80", "ｗ", "\t", "\r", "🇯🇵"}
 
 func init() {
 	streams["C18"] = stream{
